@@ -339,7 +339,12 @@ func (w *World) Introspect(token, hint, scope string, caller Auth, bearer string
 		return o
 	}
 	w.Prov.WriteIntrospectionResponse(ctx, rec, ir)
-	return parseRecorder(rec)
+	o := parseRecorder(rec)
+	if o.JSON != nil && ir.IsActive() {
+		// the HTTP writer does not render the token kind; the responder carries it
+		o.JSON["_token_use"] = string(ir.GetTokenUse())
+	}
+	return o
 }
 
 // Active introspects as client A-independent "inspector" client and reports liveness.
